@@ -19,16 +19,77 @@ EXPLANATION = (
 TECHNIQUE = 'linear-resource / dominance / paired-update analysis of the Pool.run closures on their CFGs'
 
 
+class Closures(dict):
+    """the closures of Pool.run keyed by the role they play (found structurally, not by name); closures without a
+    role keep their own name as key.  .n(role) is the name the source uses for that role."""
+
+    def n(self, role):
+        return self[role].name
+
+    def role_of(self, name):
+        for k, f in self.items():
+            if f.name == name:
+                return k
+        return name
+
+
+def _calls_on(func, meth, recv_prefix):
+    return [c for c in calls_in(func.node) if last_attr(c) == meth and isinstance(c.func, ast.Attribute) and norm(c.func.value).startswith(recv_prefix)]
+
+
+def closure_roles(ctx, run):
+    """role -> closure of Pool.run.  Each role is recognised by the bookkeeping effect that defines it."""
+    nested = dict(run.nested)
+    roles = {}
+
+    def pick(role, cands, why):
+        cands = [f for f in cands if f.name not in {x.name for x in roles.values()}]
+        ctx.require(len(cands) >= 1, f'Pool.run: no closure plays the role `{role}` ({why}) - death handling / enqueue logic restructured beyond recognition')
+        # a unique effect identifies the role; if an edit spreads the effect over several closures keep the one that still carries the canonical name, else the first
+        best = [f for f in cands if f.name == role] or cands
+        roles[role] = best[0]
+
+    fs = list(nested.values())
+    pick('handle_death', [f for f in fs if _calls_on(f, 'add', 'self._closed')] or [f for f in fs if _calls_on(f, 'clear', 'self._pending_per_worker')], 'marks a worker closed')
+    pick('handle_enqueue', [f for f in fs if any(isinstance(st, ast.AugAssign) and is_self_attr(st.target, '_pending') and isinstance(st.op, ast.Add) for st in walk_local(f.node))]
+         or [f for f in fs if _calls_on(f, 'append', 'self._pending_per_worker')], 'counts an enqueued input')
+    pick('handle_new_result', [f for f in fs if _calls_on(f, 'pop', 'self._pending_per_worker')]
+         or [f for f in fs if any(isinstance(st, ast.AugAssign) and is_self_attr(st.target, '_pending') and isinstance(st.op, ast.Sub) for st in walk_local(f.node))], 'consumes a pending input')
+    pick('handle_unused_data', [f for f in fs if _calls_on(f, 'insert', 'self._retries') or _calls_on(f, 'append', 'self._retries')], 'puts an input back on the retry list')
+    enq_param = 'enqueue_fn' if 'enqueue_fn' in run.params else None
+    pick('try_enqueue', [f for f in fs if any((last_attr(c) == 'enqueue' and f.params and receiver(c) == f.params[0]) or (enq_param and isinstance(c.func, ast.Name) and c.func.id == enq_param)
+                                              for c in calls_in(f.node))], 'hands an input to a worker')
+    te = roles['try_enqueue']
+    srcs = [st.value.func.id for st in walk_local(te.node) if isinstance(st, ast.Assign) and isinstance(st.value, ast.Call) and isinstance(st.value.func, ast.Name)
+            and st.value.func.id in nested and isinstance(st.targets[0], ast.Tuple) and len(st.targets[0].elts) == 3]
+    pick('next_inputs', [nested[x] for x in srcs] or [f for f in fs if _calls_on(f, 'pop', 'self._retries')], 'supplies the next input')
+    ten = te.name
+    pick('first_enqueue', [f for f in fs if not f.params and any(isinstance(c.func, ast.Name) and c.func.id == ten for c in calls_in(f.node))], 'initial distribution')
+    hd = roles['handle_death']
+    idle = [st.value.func.id for st in walk_local(hd.node) if isinstance(st, ast.Assign) and isinstance(st.value, ast.Call) and isinstance(st.value.func, ast.Name) and st.value.func.id in nested
+            and not st.value.args]
+    cands = [nested[x] for x in idle if nested[x].name not in {y.name for y in roles.values()}]
+    if cands:
+        roles['get_next_idle_worker'] = cands[0]
+    cl = Closures()
+    taken = {f.name for f in roles.values()}
+    for k, f in roles.items():
+        cl[k] = f
+    for nm, f in nested.items():
+        if nm not in taken:
+            cl[nm] = f
+    return cl
+
+
 def pool_parts(ctx):
     P = ctx.prog
     pool = P.cls('Pool')
     run = pool.methods.get('run')
     ctx.require(run is not None, 'Pool.run not found')
-    need = ['next_inputs', 'handle_death', 'handle_unused_data', 'handle_enqueue', 'try_enqueue', 'handle_new_result', 'first_enqueue']
-    for n in need:
-        ctx.require(n in run.nested, f'Pool.run: closure {n} not found (death handling / enqueue logic restructured beyond recognition)')
-    ctx.used(run, *[run.nested[n] for n in need])
-    return pool, run, run.nested
+    cl = closure_roles(ctx, run)
+    ctx.used(run, *cl.values())
+    ctx.note('closures of Pool.run by role: ' + ', '.join(f'{k}={f.name}' for k, f in cl.items()))
+    return pool, run, cl
 
 
 def pool_names(run_f, cl):
@@ -36,7 +97,7 @@ def pool_names(run_f, cl):
     names = {}
     te = cl['try_enqueue']
     for st in walk_local(te.node):
-        if isinstance(st, ast.Assign) and isinstance(st.value, ast.Call) and isinstance(st.value.func, ast.Name) and st.value.func.id == 'next_inputs' \
+        if isinstance(st, ast.Assign) and isinstance(st.value, ast.Call) and isinstance(st.value.func, ast.Name) and st.value.func.id == cl.n('next_inputs') \
                 and isinstance(st.targets[0], ast.Tuple) and len(st.targets[0].elts) == 3:
             names['has_data'], names['from_retries'], names['inp'] = [e.id for e in st.targets[0].elts]
     # verdict: `if not X: raise PoolError`
@@ -95,8 +156,8 @@ def run(ctx):
 
     # ---------------------------------------------------------------- R1 input conservation in try_enqueue
     g = ctx.an.cfg(te, pool)
-    enq = call_nodes(g, 'handle_enqueue', 'post')
-    unused = call_nodes(g, 'handle_unused_data', 'post')
+    enq = call_nodes(g, cl.n('handle_enqueue'), 'post')
+    unused = call_nodes(g, cl.n('handle_unused_data'), 'post')
     has_tests = [n for n in g.nodes if n.kind == 'test' and isinstance(n.stmt, ast.If) and norm(n.stmt.test) == N['has_data']]
     ctx.require(has_tests, 'try_enqueue: the test on the has-data flag was not found')
     starts = [e.dst for n in has_tests for e in n.succ if e.kind == 'true']
@@ -116,7 +177,7 @@ def run(ctx):
     # the value handed over is the input that was taken
     inp_var = None
     for st in walk_local(te.node):
-        if isinstance(st, ast.Assign) and isinstance(st.value, ast.Call) and isinstance(st.value.func, ast.Name) and st.value.func.id == 'next_inputs' \
+        if isinstance(st, ast.Assign) and isinstance(st.value, ast.Call) and isinstance(st.value.func, ast.Name) and st.value.func.id == cl.n('next_inputs') \
                 and isinstance(st.targets[0], ast.Tuple) and len(st.targets[0].elts) == 3:
             inp_var = st.targets[0].elts[2].id
             in_loop = any(isinstance(l, (ast.While, ast.For)) and any(x is st for x in ast.walk(l)) for l in walk_local(te.node))
@@ -124,10 +185,11 @@ def run(ctx):
                       'next_inputs() is called inside the retry loop: inputs taken on earlier iterations are dropped', where=loc(te, st))
     ctx.require(inp_var is not None, 'try_enqueue: next_inputs() unpacking not found')
     for c in calls_in(te.node):
-        if isinstance(c.func, ast.Name) and c.func.id in ('handle_enqueue', 'handle_unused_data'):
-            arg = c.args[1] if c.func.id == 'handle_enqueue' else c.args[0]
-            ctx.check('R1', f'try_enqueue: {c.func.id} is given the input that was taken', is_name(arg, inp_var), 'Pool.run.<try_enqueue>',
-                      f'{c.func.id}-arg:{norm(arg)}', f'{c.func.id} is given `{norm(arg)}` instead of the input taken from the source', where=loc(te, c))
+        if isinstance(c.func, ast.Name) and c.func.id in (cl.n('handle_enqueue'), cl.n('handle_unused_data')):
+            role = cl.role_of(c.func.id)
+            arg = c.args[1] if role == 'handle_enqueue' else c.args[0]
+            ctx.check('R1', f'try_enqueue: {role} is given the input that was taken', is_name(arg, inp_var), 'Pool.run.<try_enqueue>',
+                      f'{role}-arg:{norm(arg)}', f'{role} is given `{norm(arg)}` instead of the input taken from the source', where=loc(te, c))
     # handle_unused_data: retry on -> into _retries (front if it came from there, else back)
     ins = [c for c in calls_in(hu.node) if last_attr(c) in ('insert', 'append') and receiver(c) == 'self._retries']
     ok = len(ins) >= 1 and all((c.args[-1] if c.args else None) is not None and is_name(c.args[-1], hu.params[0]) for c in ins)
@@ -195,7 +257,7 @@ def run(ctx):
         # same key on both sides
         if lop == 'append':
             c = b[0].value
-            ctx.check('R2', 'handle_enqueue appends the enqueued input to the list of that worker', c.args and is_name(c.args[0], he.params[1]) and 'worker.id' in norm(c.func),
+            ctx.check('R2', 'handle_enqueue appends the enqueued input to the list of that worker', c.args and is_name(c.args[0], he.params[1]) and f'{he.params[0]}.id' in norm(c.func),
                       'Pool.run.<handle_enqueue>', f'append-arg:{norm(c)}', f'`{norm(c)}` does not record the enqueued input under the worker it went to', where=loc(func, c))
 
     # ---------------------------------------------------------------- R3 closed-worker discipline
@@ -213,17 +275,17 @@ def run(ctx):
                      'death-keeps-counter': 'the pending counter never reaches zero: Pool.run blocks forever'}[key], where=loc(hd, hd.node))
     # consuming access / enqueue dominated by a not-closed test
     gr = ctx.an.cfg(run_f, pool)
-    hnr_calls = call_nodes(gr, 'handle_new_result')
+    hnr_calls = call_nodes(gr, cl.n('handle_new_result'))
     ok = bool(hnr_calls) and all(dominated_by_not_closed(gr, n) for n in hnr_calls)
     ctx.check('R3', 'event loop: handle_new_result (which pops the worker\'s pending list) is only called for a worker that is not closed', ok, 'Pool.run',
               'result-of-closed-worker-consumed', 'a result read from a worker whose death has already been handled (its pending list was cleared) is fed to handle_new_result: '
               'pop(0) on the empty list raises IndexError out of Pool.run', where=loc(run_f, hnr_calls[0].stmt) if hnr_calls else loc(run_f, run_f.node))
-    hd_calls = call_nodes(gr, 'handle_death')
+    hd_calls = call_nodes(gr, cl.n('handle_death'))
     ok = bool(hd_calls) and all(dominated_by_not_closed(gr, n) for n in hd_calls)
     ctx.check('R3', 'event loop: handle_death is only called once per worker (guarded by not closed)', ok, 'Pool.run', 'death-handled-twice',
               'the end marker of a worker whose death was already handled while enqueueing triggers handle_death again', where=loc(run_f, hd_calls[0].stmt) if hd_calls else None)
     enq_sites = [n for n in g.nodes if n.stmt is not None and n.part == 'eval' and any(
-        (last_attr(c) == 'enqueue' and receiver(c) == 'worker') or (isinstance(c.func, ast.Name) and c.func.id == 'enqueue_fn')
+        (last_attr(c) == 'enqueue' and receiver(c) == (te.params[0] if te.params else 'worker')) or (isinstance(c.func, ast.Name) and c.func.id == 'enqueue_fn')
         for c in calls_in(n.stmt if not isinstance(n.stmt, ast.If) else n.stmt.test))]
     ok = bool(enq_sites) and all(dominated_by_not_closed(g, n) for n in enq_sites)
     ctx.check('R3', 'try_enqueue: nothing is enqueued to a worker that is closed', ok, 'Pool.run.<try_enqueue>', 'enqueue-to-closed-worker',
@@ -243,7 +305,7 @@ def run(ctx):
     ctx.check('R4', 'handle_new_result is called only for flag-true messages', ok, 'Pool.run', 'result-from-end-marker',
               'an end-of-stream message can be appended as a result', where=loc(run_f, run_f.node))
 
-    check_frame(ctx, pool)
+    check_frame(ctx, pool, cl)
     check_enqueue_callers(ctx, pool, run_f, cl)
     check_redistribution(ctx, cl, 'R1')
 
@@ -294,7 +356,7 @@ def run(ctx):
 def check_redistribution(ctx, cl, rule):
     """handle_death keeps offering retried inputs to idle workers for as long as there are any: the loop re-evaluates the retry list"""
     hd = cl['handle_death']
-    loops = [n for n in walk_local(hd.node) if isinstance(n, (ast.While, ast.For)) and any(isinstance(c.func, ast.Name) and c.func.id == 'try_enqueue' for c in calls_in(n))]
+    loops = [n for n in walk_local(hd.node) if isinstance(n, (ast.While, ast.For)) and any(isinstance(c.func, ast.Name) and c.func.id == cl.n('try_enqueue') for c in calls_in(n))]
     ok = len(loops) == 1 and isinstance(loops[0], ast.While) and norm(loops[0].test) == 'self._retries'
     ctx.check(rule, 'handle_death redistributes while the retry list is non-empty (re-evaluated on every iteration)', ok, 'Pool.run.<handle_death>',
               'redistribution-loop:' + (norm(loops[0].test if isinstance(loops[0], ast.While) else loops[0].iter) if loops else 'none'),
@@ -314,7 +376,7 @@ def check_redistribution(ctx, cl, rule):
                     conds.append(norm(cur.test))
                     break
         idle_vars = [st.targets[0].id for st in walk_local(lp) if isinstance(st, ast.Assign) and isinstance(st.targets[0], ast.Name) and isinstance(st.value, ast.Call)
-                     and isinstance(st.value.func, ast.Name) and st.value.func.id == 'get_next_idle_worker']
+                     and isinstance(st.value.func, ast.Name) and 'get_next_idle_worker' in cl and st.value.func.id == cl.n('get_next_idle_worker')]
         ok2 = bool(idle_vars) and all(c == f'{idle_vars[0]} is None' for c in conds)
         ctx.check(rule, 'the redistribution loop only stops early when no idle live worker is left', ok2, 'Pool.run.<handle_death>', 'redistribution-early-exit:' + ';'.join(conds),
                   f'the redistribution loop can stop on {conds} while retried inputs and idle workers remain', where=loc(hd, lp))
@@ -346,10 +408,12 @@ def check_enqueue_callers(ctx, pool, run_f, cl, rule='R3'):
     filters = gi is not None and any(last_attr(c) == 'difference' and c.args and norm(c.args[0]) == 'self._closed' for c in calls_in(gi.node))
     n = 0
     for f in [run_f] + list(cl.values()):
-        calls = [c for c in calls_in(f.node) if isinstance(c.func, ast.Name) and c.func.id == 'try_enqueue']
+        calls = [c for c in calls_in(f.node) if isinstance(c.func, ast.Name) and c.func.id == cl.n('try_enqueue')]
         if not calls:
             continue
         g = ctx.an.cfg(f, pool)
+        fshort = f.short if f is run_f else f'Pool.run.<{cl.role_of(f.name)}>'
+        fname = cl.role_of(f.name)
         for c in calls:
             n += 1
             arg = c.args[0] if c.args else None
@@ -358,9 +422,9 @@ def check_enqueue_callers(ctx, pool, run_f, cl, rule='R3'):
             if not ok and isinstance(arg, ast.Name) and filters:
                 # the worker came from get_next_idle_worker(), which filters the closed set
                 defs = [st for st in walk_local(f.node) if isinstance(st, ast.Assign) and is_name(st.targets[0], arg.id)]
-                ok = bool(defs) and all(isinstance(d.value, ast.Call) and isinstance(d.value.func, ast.Name) and d.value.func.id == 'get_next_idle_worker' for d in defs)
-            ctx.check(rule, f'{f.short}: try_enqueue({norm(arg)}) is only called for a worker known not to be closed', ok, f.short, f'try_enqueue-for-closed-worker@{f.name}',
-                      f'{f.short} calls try_enqueue() for a worker that may already be dead/closed; try_enqueue draws the next input from the source before it checks the closed set, so an '
+                ok = bool(defs) and all(isinstance(d.value, ast.Call) and isinstance(d.value.func, ast.Name) and d.value.func.id == cl.n('get_next_idle_worker') for d in defs)
+            ctx.check(rule, f'{fshort}: try_enqueue({norm(arg)}) is only called for a worker known not to be closed', ok, fshort, f'try_enqueue-for-closed-worker@{fname}',
+                      f'{fshort} calls try_enqueue() for a worker that may already be dead/closed; try_enqueue draws the next input from the source before it checks the closed set, so an '
                       'input is taken for a dead worker: with retry disabled it is silently dropped (Pool.run returns normally with results missing), and a per-worker source is called for a dead worker',
                       where=loc(f, c))
     ctx.floor('try_enqueue call sites', n, 3)
@@ -377,7 +441,7 @@ BOOKKEEPING = {
 MUTATORS = ('append', 'extend', 'insert', 'pop', 'clear', 'add', 'remove', 'discard', 'update', 'popitem', 'setdefault', 'difference_update', 'sort', 'reverse')
 
 
-def check_frame(ctx, pool):
+def check_frame(ctx, pool, cl):
     n = 0
     for f in ctx.prog.funcs.values():
         owner = f.cls
@@ -412,11 +476,14 @@ def check_frame(ctx, pool):
                     base = base.value
                 if is_self_attr(base) and base.attr in BOOKKEEPING:
                     hits.append((base.attr, last_attr(node)))
+            in_run = f.parent is not None and f.parent.name == 'run'
+            fname = cl.role_of(f.name) if in_run else f.name
+            fshort = f'Pool.run.<{fname}>' if in_run else f.short
             for attr, kind in hits:
                 n += 1
-                ok = kind in BOOKKEEPING[attr].get(f.name, set())
-                ctx.check('R7', f'{f.short}: `{kind}` of self.{attr} is one of the known bookkeeping updates', ok, f.short, f'unexpected-bookkeeping-update:{attr}.{kind}@{f.name}',
-                          f'{f.short} mutates the Pool bookkeeping `self.{attr}` ({kind}) outside the update sites the conservation argument covers: inputs can be lost, duplicated or '
+                ok = kind in BOOKKEEPING[attr].get(fname, set())
+                ctx.check('R7', f'{fshort}: `{kind}` of self.{attr} is one of the known bookkeeping updates', ok, fshort, f'unexpected-bookkeeping-update:{attr}.{kind}@{fname}',
+                          f'{fshort} mutates the Pool bookkeeping `self.{attr}` ({kind}) outside the update sites the conservation argument covers: inputs can be lost, duplicated or '
                           'handed to dead workers', where=loc(f, node))
     ctx.floor('Pool bookkeeping update sites', n, 18)
 
